@@ -158,6 +158,14 @@ Theorem C08_ackmgr_judge_model : forall c, Forall (fun z => (z < 461168601842738
   AckManager.judge c (AckManager.run c) = true.
 Proof. exact AckJudgeProofs.judge_run. Qed.
 
+(* every reachable ack_ranges value is well formed, ascending with a gap between neighbouring intervals,
+   and within ack_ranges_limit -- the hypotheses of C08_ranges_drop_only_lowest *)
+Theorem C08_ranges_ascending : forall c ops, 1 <= AckManager.ranges_limit c -> Forall AckJudgeProofs.op_wf ops ->
+  let '(now', s', rf') := AckJudgeProofs.exec 1 (AckManager.init c) AckManager.ref0 ops in
+  AckRangesLemmas.WF (AckManager.rng s') /\ AckRangesLemmas.Asc (AckManager.rng s') /\
+  AckManager.len (AckManager.rng s') <= AckManager.ranges_limit c.
+Proof. exact AckJudgeProofs.ranges_ascending. Qed.
+
 (* capacity eviction: what insert_packet_number sheds lies in the lowest interval, below the inserted
    number, every other interval is retained; on an ascending list it is below every retained number *)
 Theorem C08_ranges_drop_only_lowest : forall l pn lim x,
@@ -166,7 +174,7 @@ Theorem C08_ranges_drop_only_lowest : forall l pn lim x,
   (exists a b t, l = (a, b) :: t /\ a <= x <= b /\ b < pn /\
      (forall y, AckManager.in_ranges y t = true ->
                 AckManager.in_ranges y (AckManager.insert_packet_number pn l lim) = true)) /\
-  (AckJudgeProofs.Asc l ->
+  (AckRangesLemmas.Asc l ->
    forall y, AckManager.in_ranges y (AckManager.insert_packet_number pn l lim) = true -> x < y).
 Proof. exact AckJudgeProofs.ranges_drop_only_lowest. Qed.
 
@@ -198,3 +206,4 @@ Print Assumptions C08_ack_defaults.
 Print Assumptions C08_ack_deadline.
 Print Assumptions C08_ackmgr_judge_model.
 Print Assumptions C08_ranges_drop_only_lowest.
+Print Assumptions C08_ranges_ascending.
